@@ -599,14 +599,25 @@ def load(path):
             fn = Fn(None, kind)
             fn.line = i + 1
             # `NAME: TYPE = {`  or `NAME: TYPE = const V;`
-            m = re.match(r'^(.*?): (.*) = (\{|const .*;)$', body)
+            # NAME may contain `<impl at f:1:2: 3:4>`: split at the first `: ` outside brackets
+            d = 0
+            cut = None
+            for k, ch in enumerate(body):
+                if ch in '<([{':
+                    d += 1
+                elif ch in ')]}' or (ch == '>' and body[k - 1] not in '-='):
+                    d -= 1
+                elif d == 0 and body.startswith(': ', k):
+                    cut = k
+                    break
+            m = re.match(r'^(.*) = (\{|const .*;)$', body[cut + 2:]) if cut is not None else None
             if not m:
                 raise MirSyntaxError('line %d: bad const header %r' % (i + 1, l[:120]))
-            fn.name = m.group(1)
-            fn.ret = m.group(2)
+            fn.name = body[:cut]
+            fn.ret = m.group(1)
             fn.locals[0] = fn.ret
-            if m.group(3) != '{':
-                fn.value_text = m.group(3)[6:-1]
+            if m.group(2) != '{':
+                fn.value_text = m.group(2)[6:-1]
                 fn.parsed = True
                 fns.setdefault(fn.name, []).append(fn)
                 order.append(fn)
